@@ -38,8 +38,10 @@ class Prop(PropBase):
     def cases(self, rng, tier):
         quick = tier == "quick"
         Ns = [1, 2, 3, 5, 7, 8, 16, 17, 31, 64, 96] + ([] if quick else [1023])
-        for _ in range(450 if quick else 12000):
+        for i_case in range(450 if quick else 12000):
             N = rng.choice(Ns)
+            if i_case % 110 == 5:
+                N = rng.choice([4096, 10007, 65536])          # long records
             cls = rng.choice(["Signal", "Signal", "BasebandSignal", "DualPolarizationSignal", "IntensitySignal"])
             dtype = rng.choice(["f4", "f8"]) if not sigs.is_complex(cls) else rng.choice(["c8", "c16"])
             if cls == "Signal":
